@@ -7,10 +7,10 @@ package zzref
 
 // DecIPHdr describes an IPv4 header to build. Zero value + Src/Dst = an ordinary header.
 type DecIPHdr struct {
-	Version   int    // 0 means 4; use DecIPVersion0 for a literal 0
-	IHL       int    // 0 means (20+len(Options))/4; use DecIPIHL0 for a literal 0
+	Version   int // 0 means 4; use DecIPVersion0 for a literal 0
+	IHL       int // 0 means (20+len(Options))/4; use DecIPIHL0 for a literal 0
 	TOS       byte
-	TotalLen  int    // 0 means the real length; DecIPLen0 for a literal 0
+	TotalLen  int // 0 means the real length; DecIPLen0 for a literal 0
 	ID        uint16
 	FlagsFrag uint16 // the 16-bit flags+fragment-offset word
 	TTL       byte
@@ -144,4 +144,12 @@ func DecFresh(b []byte) []byte {
 	c := make([]byte, len(b))
 	copy(c, b)
 	return c[:len(c):len(c)]
+}
+
+// DecHead returns at most the first n bytes.
+func DecHead(b []byte, n int) []byte {
+	if len(b) > n {
+		return b[:n]
+	}
+	return b
 }
